@@ -46,15 +46,34 @@ KERNELS = {
     "KGenerator": "use-generator",
     "KSetLit": "use-set-literal",
     "KHasattr": "fix-hasattr-call",
+    "KEmptySeq": "fix-empty-sequence-comparison",
+    "KEmptySeqTest": "fix-empty-sequence-comparison",
+    "KIdentity": "literal-or-new-object-identity",
 }
+
+
+def file_of(kernel, text):
+    """the file given to CPython and to the codemod: `result = <expr>`, or the expression as the test of an `if`"""
+    if kernel == "KEmptySeqTest":
+        return f"if {text}:\n    result = True\nelse:\n    result = False\n"
+    return "result = " + text + "\n"
+
+
+def expr_of(kernel, filetext):
+    """the expression text inside a (possibly rewritten) file"""
+    if kernel == "KEmptySeqTest":
+        first = filetext.split("\n", 1)[0]
+        return first[3:-1] if first.startswith("if ") and first.endswith(":") else first
+    return filetext.strip()[9:]
 CLASSES = {
     1: "kf_combine_regroup", 2: "kf_combine_tuple_name", 3: "kf_combine_eager_args", 4: "kf_combine_lost_parens",
     5: "kf_invert_default_branch", 6: "kf_invert_chain", 7: "kf_invert_partial_order", 8: "kf_invert_is_literal",
     9: "kf_invert_lost_parens", 10: "kf_generator_shortcircuit", 11: "kf_generator_dropped_args",
     12: "kf_hasattr_instance_call", 13: "kf_hasattr_arity",
+    14: "kf_empty_seq_other_type", 15: "kf_empty_seq_lost_parens", 16: "kf_identity_differs",
 }
 # when several classes apply to one case, report the most specific cause first
-CLASS_PRIORITY = [5, 6, 1, 11, 4, 9, 2, 7, 8, 12, 13, 10, 3]
+CLASS_PRIORITY = [5, 6, 1, 11, 4, 9, 15, 2, 7, 8, 12, 13, 10, 3, 14, 16]
 
 IMPORTS = ("From CM Require Import Harness.RunBase Harness.C08_run Model.MiniPy Model.PySem Model.Rewrites Spec.RewritesSpec.\n"
            "Local Open Scope N_scope.\n")
@@ -66,7 +85,9 @@ def gen_cases(ctx, n_per_kernel):
     cases = []
     plan = [("KCombineSW", "sw", lambda: M.gen_combine(rng, "sw")), ("KCombineInst", "inst", lambda: M.gen_combine(rng, "inst")),
             ("KInvert", "num", lambda: M.gen_invert(rng)), ("KGenerator", "num", lambda: M.gen_generator(rng)),
-            ("KSetLit", "num", lambda: M.gen_setlit(rng)), ("KHasattr", "obj", lambda: M.gen_hasattr(rng))]
+            ("KSetLit", "num", lambda: M.gen_setlit(rng)), ("KHasattr", "obj", lambda: M.gen_hasattr(rng)),
+            ("KEmptySeq", "seq", lambda: M.gen_empty_seq(rng)), ("KEmptySeqTest", "seq", lambda: M.gen_empty_seq(rng, top=True)),
+            ("KIdentity", "seq", lambda: M.gen_identity(rng))]
     for kernel, profile, g in plan:
         for _ in range(n_per_kernel):
             e = g()
@@ -74,7 +95,10 @@ def gen_cases(ctx, n_per_kernel):
                 if M.size(e) <= 25:
                     break
                 e = g()
-            cases.append({"kernel": kernel, "env": M.gen_env(rng, profile), "expr": e, "origin": "targeted"})
+            origin = "targeted"
+            if rng.random() < 0.4:      # the same tree with only the parentheses Python's precedences need
+                e, origin = M.minimal_flags(e), "targeted-minimal-parens"
+            cases.append({"kernel": kernel, "env": M.gen_env(rng, profile), "expr": e, "origin": origin})
     # free-form expressions over the whole AST through every kernel (mostly exercises the evaluator and the no-op paths)
     for _ in range(n_per_kernel):
         e = M.gen_expr(rng, rng.randint(1, 25))
@@ -156,7 +180,7 @@ def c_case(c):
     after = c["after_tree"]
     return ("{| k_kernel := %s; k_env := %s; k_expr := %s; k_text := %s; k_obs := %s; k_after_text := %s; k_after := %s; k_obs_after := %s |}"
             % (c["kernel"], M.c_env(c["env"]), M.to_coq(c["expr"]), core.cstr(c["text"]), core.cstr(c["obs"]),
-               core.cstr(c["after_text"].strip()[9:] if c["after_text"].isascii() else "?"),
+               core.cstr(c["after_expr"] if c["after_expr"].isascii() else "?"),
                core.copt(None if after is None else M.to_coq(after), "expr"), core.cstr(c["obs_after"])))
 
 
@@ -184,13 +208,13 @@ def observe(ctx, cases):
     for c in cases:
         c["text"] = M.pp(c["expr"])
         c["prelude"] = M.prelude(c["env"])
-    obs = M.run_sandbox(ctx, [(c["prelude"], "result = " + c["text"] + "\n") for c in cases])
-    after, failures = run_codemods(ctx, [(KERNELS[c["kernel"]], "result = " + c["text"] + "\n") for c in cases])
+    obs = M.run_sandbox(ctx, [(c["prelude"], file_of(c["kernel"], c["text"])) for c in cases])
+    after, failures = run_codemods(ctx, [(KERNELS[c["kernel"]], file_of(c["kernel"], c["text"])) for c in cases])
     for cm, err in failures:
         ctx.mismatch(f"real CLI run of {cm}", "the codemodder CLI failed on a generated project: " + err, {"codemod": cm})
     for c, o, a in zip(cases, obs, after):
         c["obs"] = o
-        c["after_text"] = a if a is not None else "result = " + c["text"] + "\n"
+        c["after_text"] = a if a is not None else file_of(c["kernel"], c["text"])
         c["cli_failed"] = a is None
     obs_after = M.run_sandbox(ctx, [(c["prelude"], c["after_text"]) for c in cases])
     for c, o in zip(cases, obs_after):
@@ -202,21 +226,49 @@ def observe(ctx, cases):
             c["after_tree"], c["after_parses"] = None, False
         except M.NotMiniPy:
             c["after_tree"], c["after_parses"] = None, True
-        c["impl_changed"] = c["after_text"].strip() != ("result = " + c["text"]).strip()
+        c["impl_changed"] = c["after_text"].strip() != file_of(c["kernel"], c["text"]).strip()
+        c["after_expr"] = expr_of(c["kernel"], c["after_text"])
 
 
 def replay_of(c):
-    return {"kernel": c["kernel"], "codemod": KERNELS[c["kernel"]], "env": c["env"], "expr": c["expr"], "source": "result = " + c["text"],
+    return {"kernel": c["kernel"], "codemod": KERNELS[c["kernel"]], "env": c["env"], "expr": c["expr"], "source": file_of(c["kernel"], c["text"]),
             "prelude": c["prelude"], "rewritten": c["after_text"], "observed_original": c["obs"], "observed_rewritten": c["obs_after"],
             "origin": c.get("origin")}
 
 
+FRAGMENT_KERNELS = {
+    "kernel_combine_base": ["KCombineSW", "KCombineInst"], "kernel_combine_sw": ["KCombineSW"], "kernel_combine_inst": ["KCombineInst"],
+    "kernel_invert": ["KInvert"], "kernel_generator": ["KGenerator"], "kernel_set_literal": ["KSetLit"], "kernel_hasattr": ["KHasattr"],
+    "kernel_empty_seq": ["KEmptySeq", "KEmptySeqTest"], "kernel_identity": ["KIdentity"],
+}
+
+
+def unjudged_kernels(ctx):
+    """kernels whose source fragment the translator did not recognise: Tables.v then holds a fallback value, which says nothing
+    about the current source, so neither the model comparison nor the guard / finding classes of that kernel mean anything.
+    The broken tie itself is reported by core.finish (translator: fragment ... unrecognised)."""
+    out = set()
+    for u in (ctx.build or {}).get("unrecognised", []):
+        out.update(FRAGMENT_KERNELS.get(u.get("fragment"), []))
+        if u.get("fragment") == "*":
+            out.update(k for ks in FRAGMENT_KERNELS.values() for k in ks)
+    return out
+
+
 def judge(ctx, cases, bad):
+    skip = unjudged_kernels(ctx)
+    for k in sorted(skip):
+        ctx.notes.append(f"kernel {k}: source fragment unrecognised, its cases are not judged against the fallback table")
     for i, c in enumerate(cases):
         if c["cli_failed"]:
             continue
+        if c["kernel"] in skip:
+            ctx.count(f"not_judged:{c['kernel']}")
+            ctx.case({"kernel": c["kernel"], "source": c["text"], "not_judged": True})
+            continue
         k = c["kernel"]
         ctx.count(f"kernel:{k}")
+        ctx.count("parentheses:" + ("minimal" if str(c.get("origin", "")).endswith("minimal-parens") else "every node"))
         ctx.count(f"size:{min(M.size(c['expr']) // 5 * 5, 25)}+")
         ctx.count("orig_outcome:" + c["obs"].split(" ")[0] + ("" if c["obs"].startswith("value") else ":" + c["obs"].split(" ")[1]))
         ctx.count("impl_changed" if c["impl_changed"] else "impl_unchanged")
@@ -260,7 +312,7 @@ def judge(ctx, cases, bad):
             ctx.count("guard_holds")
         if differs:
             ctx.count("behaviour_differs")
-            what = (f"{KERNELS[k]}: `{c['text']}` -> `{c['after_text'].strip()[9:]}`; original: {c['obs']}; rewritten: {c['obs_after']}")
+            what = (f"{KERNELS[k]}: `{c['text']}` -> `{c['after_expr']}`; original: {c['obs']}; rewritten: {c['obs_after']}")
             if guard or not classes:
                 cls = "unclassified_behaviour_change" + ("_under_guard" if guard else "")
                 ctx.violation(cls, what, dict(rp, classes=[], guard=guard))
@@ -271,7 +323,7 @@ def judge(ctx, cases, bad):
         if exp and (not differs or exp not in [CLASSES[n] for n in classes]):
             # a corpus witness of a known finding no longer reproduces: not an alarm (e.g. the defect was repaired), but say so
             ctx.notes.append(f"corpus witness {c['origin']} ({exp}) not reproduced: differs={differs} classes={[CLASSES[n] for n in classes]}")
-        ctx.case({"kernel": k, "source": c["text"], "rewritten": c["after_text"].strip()[9:], "env": M.prelude(c["env"]).splitlines()[-8:],
+        ctx.case({"kernel": k, "source": c["text"], "rewritten": c["after_expr"], "env": M.prelude(c["env"]).splitlines()[-8:],
                   "original": c["obs"], "after": c["obs_after"], "classes": [CLASSES[n] for n in classes]},
                  nontrivial_key=(k, c["text"], repr(c["env"])) if c["impl_changed"] else None,
                  sample=c["impl_changed"] and model_changed)
@@ -284,7 +336,8 @@ def kernel_programs(ctx, cases, bad):
     rng = ctx.rng
     by = {}
     for i, c in enumerate(cases):
-        if c["cli_failed"] or not c["impl_changed"] or c["obs"] != c["obs_after"] or i in bad["guard_holds"]:
+        if c["cli_failed"] or not c["impl_changed"] or c["obs"] != c["obs_after"] or i in bad["guard_holds"] or c["kernel"] == "KEmptySeqTest" \
+                or c["kernel"] in unjudged_kernels(ctx):
             continue
         by.setdefault(c["kernel"], []).append(c)
     out = []
@@ -300,6 +353,14 @@ def kernel_programs(ctx, cases, bad):
                 src += pre + f"try:\n    r{m} = {text}\n    print('value', show(r{m}))\nexcept BaseException as ex:\n    print('raise', type(ex).__name__)\n"
             out.append({"codemod": KERNELS[k], "name": f"{k}:statements:{n}", "source": src, "extra_files": {"_show.py": M.SHOW_SRC},
                         "concat_ok": False})
+        # the rewritten expression as the whole expression of an f-string replacement field (a display's `{` next to the
+        # field's `{`, conversions and format specifications after it)
+        plain = [c for c in items if c["obs"].startswith("value") and "<" not in c["obs"] and "'" not in c["text"]]
+        for n, c in enumerate(rng.sample(plain, min(len(plain), 4 if ctx.quick() else 20))):
+            field = rng.choice(["{%s}", "{%s!r}", "{%s!r:>12}", "a {%s} b", "{%s}{%s}"])
+            pre = "".join(l + "\n" for l in c["prelude"].splitlines())
+            src = pre + "try:\n    r = f'" + field.replace("%s", c["text"]) + "'\n    print('value', r)\nexcept BaseException as ex:\n    print('raise', type(ex).__name__)\n"
+            out.append({"codemod": KERNELS[k], "name": f"{k}:fstring-field:{n}", "source": src, "concat_ok": False})
     return out
 
 
@@ -346,7 +407,7 @@ def run(ctx: core.Ctx):
         mine = [f for f in b.get("failed", [])]
         ctx.tie_broken.append("proof: the development no longer builds for the current table values (%s)" % (
             "; ".join(f"{f['file']}:{f['line']}: {f['error'][:160]}" for f in mine) or a.get("error", "audit failed")[:300]))
-    n = 100 if ctx.quick() else 600
+    n = 50 if ctx.quick() else 500
     if getattr(ctx, "deep", False):
         n *= 3
     cases = load_corpus() + gen_cases(ctx, n)
@@ -365,7 +426,7 @@ def run(ctx: core.Ctx):
         # still search: spec = equal observations, without classification
         for c in cases:
             if c["obs"] != c["obs_after"]:
-                ctx.violation("unclassified_behaviour_change", f"{KERNELS[c['kernel']]}: `{c['text']}` -> `{c['after_text'].strip()[9:]}`; "
+                ctx.violation("unclassified_behaviour_change", f"{KERNELS[c['kernel']]}: `{c['text']}` -> `{c['after_expr']}`; "
                               f"original: {c['obs']}; rewritten: {c['obs_after']}", replay_of(c))
             ctx.case({"source": c["text"]}, nontrivial_key=c["text"] if c["impl_changed"] else None)
     try:
